@@ -9,6 +9,9 @@ package frag
 //                         reordering/interleaving = any order); state key = Defragger private fields
 //   reassembler-sequences every operation sequence of a fixed length over the same alphabets, with
 //                         the expectation recomputed from the bare history (no incremental model)
+//   wire-widths           (wire_frag_test.go) datagrams as a conforming peer may write them: the
+//                         address-length varint on every legal width, through the real parser and
+//                         Defragger in every arrival order
 
 import (
 	"bytes"
@@ -875,6 +878,7 @@ func TestVerifC05Frag(t *testing.T) {
 			c05ReassemblerBFS(sh)
 			c05ReassemblerSequences(sh)
 			c05Splitter(sh)
+			c05WireWidthsPart(sh) // wire_frag_test.go
 		},
 		Replay: func(part string, raw json.RawMessage) (bool, bool, string) {
 			switch part {
@@ -884,6 +888,13 @@ func TestVerifC05Frag(t *testing.T) {
 					return true, false, err.Error()
 				}
 				clause, _ := c05SplitRun(c)
+				return true, clause != "", clause
+			case "wire-widths":
+				var c c05WireCase
+				if err := json.Unmarshal(raw, &c); err != nil {
+					return true, false, err.Error()
+				}
+				clause, _, _ := c05WireRun(c)
 				return true, clause != "", clause
 			case "reassembler-bfs", "reassembler-sequences":
 				var c c05HistCase
